@@ -18,3 +18,4 @@ def run(run):
     gsm.bfs_slice(run, 'C09', 4 if quick else 5, keep=KEEP)
     gsm.simulate(run, 'ALL', 14, 4000 if quick else 60000, keep=KEEP, timeout=300 if quick else 1800)
     gsm.simulate(run, 'ALL', 12, 2000 if quick else 30000, keep=KEEP, lang='LDef', timeout=300 if quick else 1800)
+    gsm.driver_traces(run, 150 if quick else 2500)
